@@ -12,6 +12,33 @@ CLAIMED = {
             "7 C15"),
 }
 
+CLAIMED.update({
+    "C01": ("Coq proof (refinement of the assembly loops to lists of additions + ring semantics, any commutative ring) + extracted-model correspondence (channels A, B) + exact rational oracle",
+            "Theorems in Props/C01.v: for every well-formed index-level network, every species row of the generated right-hand side evaluates (in any commutative ring, for every k and y) to the mass-action sum with multiplicities plus the modifier terms; unreacting species get the literal 0.0; the temperature row is heating minus cooling under the (gamma-1)/kerg/npar wrap. Tied to TemplateLoader._prepare_ode_content and to the rendered Fex of dense/sparse/cusparse/rosenbrock4 by term-level comparison with the extracted model and by exact evaluation of the emitted text.",
+            "Index-level model (species already resolved to slots by the implementation's own species.index; identity of species is C08/C09); text is compared after parsing sums of products (harness canonicaliser); stmwrap line breaking and floating-point evaluation order not modelled.",
+            "7 C01"),
+    "C02": ("Coq proof (formal derivative by linearity+Leibniz over any commutative ring; Coquelicot is_derive over R) + correspondence + dual-number oracle",
+            "Theorems in Props/C02.v: every Jacobian entry evaluates to the formal partial derivative of the emitted row (reactions, ODE modifiers with any number of repeated dependencies, thermal terms); omitted entries are identically zero derivatives; over R the formal derivative is Coquelicot's is_derive with rates held fixed. Tied to ode.jac.rhs/vals and to the four rendered Jacobians by term comparison and by exact dual-number differentiation of the emitted right-hand side.",
+            "Derivative with respect to explicit occurrences of y[IDX_j]; gamma, npar, kerg, rate coefficients are parameters. Axioms: the three standard real-number axioms (ClassicalDedekindReals.sig_forall_dec, sig_not_dec, functional_extensionality_dep) only for the is_derive theorems.",
+            "7 C02"),
+    "C03": ("Coq proof (CSR loop refined to per-row entry lists; layouts proved equal as triple lists) + correspondence + structural oracle on rendered files",
+            "Theorems in Props/C03.v: row pointers start at 0, are monotone, end at NNZ = |cols| = |vals|; columns strictly increasing and in range per row; csr_triples = dense_assign (same (row, col, value) in the same order) for every n x n flat matrix; stored entries are exactly the non-'0.0' ones; pattern marks exactly those; generated matrices have the declared shape and only species subscripts. Tied to ode.jac.*, the dense/sparse/cusparse/odeint renderings, jac_pattern.dat and the macros.",
+            "Template index decoding (loop.index0/neqns)|int is float division (exact below 2^53); subscripts of rendered sources are scanned textually after emulating the preprocessor conditionals.",
+            "7 C03"),
+    "C04": ("Coq proof (weighted-sum identity over any commutative ring) + correspondence + exact oracle on balanced networks",
+            "Theorems in Props/C04.v: for any weight per species slot, if every reaction carries equal weight on both sides the weighted sum of the generated species derivatives is identically zero (all abundances, all rate values). Tied to the code by the C01 correspondence on generated balanced networks and by exact evaluation of the emitted/rendered equations and of GetElementAbund with generator-side compositions.",
+            "Which reactions are balanced is decided by the generator's composition table; species identity (two spellings, one slot) is C08/C09.",
+            "7 C04"),
+    "C06": ("Coq proof (guard semantics over Q, partition of adjacent windows by induction) + correspondence + probe oracle",
+            "Theorems in Props/C06.v: the generated assignment, with k[] initialised to 0, equals the rate expression iff Tmin <= T < Tmax (non-positive bound = unbounded) and 0 otherwise; adjacent positive boundaries give exactly one active reaction on [b0, bn) boundaries included; a rate modifier drops the guard. Tied to _assign_rates, the rendered EvalRates of all back-ends and the presence/position of the zero initialiser in every Fex/Jac.",
+            "Temperatures are exact rationals; the C-level zero initialisation is checked textually in the rendered sources (executed in channel C of C05 when built).",
+            "7 C06"),
+    "C13": ("Coq proof (list-level characterisation of the overwrite loop; refinement theorem for ODE modifiers) + correspondence + differential oracle incl. the configuration-file path",
+            "Theorems in Props/C13.v: a rate modifier replaces exactly the assignments whose reaction index equals its key (last key wins) and re-indexing happens only for fully unindexed networks; an ODE modifier appends its terms to the target equation only. Tied to the API, TemplateLoader.render, Network.export -> `naunet render` and `naunet init` -> TOML.",
+            "tomlkit and cleo option tokenisation are exercised, not modelled.",
+            "7 C13"),
+})
+
 NOT_YET = {}
 
 
